@@ -204,6 +204,12 @@ fn catalogue() -> Vec<(Case, bool)> {
         ("x := 1\nfn f(x) {\n    return x\n}\nfor [x, y] in [5] {\n    print(x)\n}\nprint(f(2))\nprint(x)\n", "0\n2\n1\n"),
         ("x := 1\nif true {\n    fn x() {\n        return 2\n    }\n    print(x())\n}\nprint(x)\ni := 0\nwhile i < 2 {\n    i += 1\n    fn helper() {\n        return i\n    }\n    print(helper())\n}\n", "2\n1\n1\n2\n"),
         ("{\n    fn inner() {\n        return 1\n    }\n}\nfn inner() {\n    return 2\n}\nprint(inner())\n", "2\n"),
+        // `_` any number of times at any depth of any pattern.
+        ("fn add_values([_, x], [_, y]) {\n    return x + y\n}\nprint(add_values([0, 1], [0, 2]))\nfn pick({\"a\": _, \"b\": [_, _, z]}, _, [_, [_, _]]) {\n    return z\n}\nprint(pick({\"a\": 1, \"b\": [1, 2, 3]}, 0, [0, [0, 0]]))\ng := fn ([_, p], {\"k\": _}, [_, q]) {\n    return p + q\n}\nprint(g([0, 5], {\"k\": 0}, [0, 6]))\n", "3\n3\n11\n"),
+        ("[[_, a], [_, b], _] := [[0, 1], [0, 2], 0]\nprint(a + b)\nfor [_, [_, [_, c]]] in [[0, [0, 7]]] {\n    print(c)\n}\n{\"x\": [_, _], \"y\": {\"z\": _}, .._} := {\"x\": [1, 2], \"y\": {\"z\": 3}, \"w\": 4}\n[[_, _], [_, a]] = [[1, 2], [3, 4]]\nprint(a)\n", "3\n7\n4\n"),
+        // `=` through a pattern updates the nearest declared variables, the
+        // collected rest included.
+        ("rest := 0\nfirst := 0\n{\n    {\"a\": first, ..rest} = {\"a\": 1, \"b\": 2}\n    [first, ..rest] = [first, 5, 6]\n}\nprint(first)\nprint(rest)\n", "1\n[\n    5,\n    6,\n]\n"),
     ];
     let mut ok: Vec<(String, String)> = ok.into_iter().map(|(a, b)| (a.to_string(), b.to_string())).collect();
     {
@@ -252,6 +258,9 @@ fn catalogue() -> Vec<(Case, bool)> {
         ("for q in [1] {\n}\nq = 2\n", "", vec![DiagPred::Pos{line: 3, col: 1}]),
         ("fn f(p) {\n    return p\n}\nf(1)\np += 1\n", "", vec![DiagPred::Pos{line: 5, col: 1}]),
         ("print(1)\nzz = 1\n", "1\n", vec![DiagPred::Pos{line: 2, col: 1}]),
+        ("print(1)\na := 0\n{a, ..leftover} = {\"a\": 1, \"b\": 2}\nprint(leftover)\n", "1\n", vec![DiagPred::Pos{line: 3, col: 7}]),
+        ("print(1)\na := 0\n[a, ..leftover] = [1, 2]\nprint(leftover)\n", "1\n", vec![DiagPred::Pos{line: 3, col: 7}]),
+        ("print(1)\na := 0\n{\"a\": a, \"b\": [missing]} = {\"a\": 1, \"b\": [2]}\n", "1\n", vec![DiagPred::Pos{line: 3, col: 16}]),
     ];
     let mut errs: Vec<(String, &str, Vec<DiagPred>)> = errs.into_iter().chain(errs0.into_iter().map(|(a, b, c)| (a.to_string(), b, c))).collect();
     // The earlier declaration far to the right and far down: three-digit
